@@ -65,7 +65,7 @@ def expected(u):
 
 class C14Oracle(worldprop.Oracle):
     def after(self, idx, op, ob):
-        if op[0] in ("NewRecord", "Factory", "AddAttrs", "AddRecord", "ToGraph"):
+        if op[0] in ("NewRecord", "Factory", "ElemMethod", "AddAttrs", "AddRecord", "ToGraph"):
             for di in range(len(self.im.docs)):
                 self.check(idx, di)
 
